@@ -36,6 +36,9 @@ MALFORMATIONS = ['none', 'wrong-kid', 'bad-tag', 'unknown-ctx', 'target-missing'
                  'addl-undecodable', 'crit-header', 'result-not-array', 'result-garbage', 'wrong-tag-kind', 'unknown-tag',
                  'asb-garbage', 'asb-empty', 'addl-protected-ok', 'alter-target-0', 'alter-target-1', 'attached-payload']
 BLOCKS = ['bib-payload', 'bib-ext', 'bcb-payload', 'bib-multi', 'bib-multi-r', 'bcb-multi', 'bcb-multi-r']
+# a BIB on the payload with a BCB layered over it: the BCB covers the payload only, or (as RFC 9172 asks of a source
+# whose BIB and BCB share a target) the payload and the BIB
+LAYERED = ['bib+bcb', 'bib+bcb-rfc']
 TARGETS = {'bib-payload': [1], 'bib-ext': [2], 'bcb-payload': [1], 'bib-multi': [2, 1], 'bib-multi-r': [1, 2],
            'bcb-multi': [2, 1], 'bcb-multi-r': [1, 2]}
 KEYSTORES = ['right', 'wrong', 'none']
@@ -55,7 +58,8 @@ def budgets(tier):
 
 
 def strategy(tier):
-    block = st.tuples(st.sampled_from(BLOCKS), st.sampled_from(MALFORMATIONS)).map(list)
+    block = st.one_of(st.tuples(st.sampled_from(BLOCKS), st.sampled_from(MALFORMATIONS)).map(list),
+                      st.tuples(st.sampled_from(LAYERED), st.sampled_from(['none', 'none', 'alter-target-0', 'wrong-kid'])).map(list))
     return st.fixed_dictionaries({
         'blocks': st.lists(block, min_size=1, max_size=2),
         'keys': st.sampled_from(KEYSTORES), 'accept': st.booleans(),
@@ -68,6 +72,8 @@ def enumerate_cases(tier):
     base = {'plen': 9, 'seed': 1, 'pcrc': 1, 'bcrc': 0}
     for blk, mal, keys, accept in itertools.product(BLOCKS, MALFORMATIONS, KEYSTORES, (False, True)):
         yield dict(base, blocks=[[blk, mal]], keys=keys, accept=accept)
+    for kind, mal, keys, accept in itertools.product(LAYERED, ('none', 'alter-target-0', 'wrong-kid'), KEYSTORES, (False, True)):
+        yield dict(base, blocks=[[kind, mal]], keys=keys, accept=accept)
     pairs = [('bib-ext', 'bib-payload'), ('bib-ext', 'bcb-payload'), ('bib-payload', 'bib-ext'), ('bcb-payload', 'bib-ext')]
     for (first, second), mal, accept, bad_first in itertools.product(pairs, MALFORMATIONS[1:], (False, True), (False, True)):
         blocks = [[first, mal if bad_first else 'none'], [second, 'none' if bad_first else mal]]
@@ -183,6 +189,18 @@ def build(case):
     plan = []
     used_targets = set()
     for blk_kind, mal in case['blocks'][:2]:
+        if blk_kind in LAYERED:
+            if used_targets:
+                continue
+            used_targets.update([(11, 1), (12, 1)])
+            bundle = bu.ref_add_bib(bundle, [1], 'k-mac-1', 5, {0: 1, -1: 1})
+            bib_num = [b for b in bundle['blocks'] if b['type'] == 11][-1]['num']
+            bcb_targets = [1] if blk_kind == 'bib+bcb' else [1, bib_num]
+            bundle = bu.ref_add_bcb(bundle, bcb_targets, 'k-enc-1', 3, {0: 1, -1: 1}, [b'\x61' * 12, b'\x62' * 12][:len(bcb_targets)])
+            bundle = malform(bundle, 12, mal)      # (the malformation, if any, hits the BCB / the ciphertext of the payload)
+            plan.append((11, 1, 'none'))
+            plan.append((12, 1, mal))
+            continue
         targets = TARGETS[blk_kind]
         target = targets[0]
         sec_type = 11 if blk_kind.startswith('bib') else 12
@@ -230,11 +248,25 @@ def _rebuild_without_params(bundle, sec_type):
 
 
 def strict_verdict(bundle, keys):
-    ''' Independent, strict verdict: do all operations of all security blocks verify? '''
+    ''' Independent, strict verdict: do all operations of all security blocks verify?  Confidentiality comes off first:
+    a BIB whose target (or which itself) is covered by a BCB is checked against the decrypted content. '''
     from vlib import refcose as rc, cborpull as cb
     plaintexts = {}
+    verdict, plaintexts = _strict_pass(bundle, keys, 12, plaintexts)
+    if not verdict:
+        return False, plaintexts
+    cleared = copy.deepcopy(bundle)
+    for blk in cleared['blocks']:
+        if blk['num'] in plaintexts and plaintexts[blk['num']] is not None:
+            blk['data'] = bytes(plaintexts[blk['num']]).hex()
+    verdict, _none = _strict_pass(cleared, keys, 11, {})
+    return verdict, plaintexts
+
+
+def _strict_pass(bundle, keys, sec_type, plaintexts):
+    from vlib import refcose as rc, cborpull as cb
     for blk in bundle['blocks']:
-        if blk['type'] not in (11, 12):
+        if blk['type'] != sec_type:
             continue
         try:
             asb = rc.parse_asb(blk['data'])
@@ -310,7 +342,7 @@ def execute(case):
     for esc in node.escapes():
         out.fail('escape:%s@%s' % (esc.exc_type, esc.frame), 'exception escaped a main-loop callback (%s): %s: %s' % (desc, esc.exc_type, esc.exc_msg[:100]))
     out.label('keys:' + keystore, 'accept' if accept else 'verify-only', 'verdict:%s' % verdict, 'blocks:%d' % len(plan))
-    if any(len(TARGETS[b]) > 1 for b, _m in case['blocks'][:2]):
+    if any(len(TARGETS.get(b, [1])) > 1 for b, _m in case['blocks'][:2]):
         out.label('multi-target')
     for sec_type, _t, mal in plan:
         out.label('%s:%s' % ('bib' if sec_type == 11 else 'bcb', mal))
